@@ -223,11 +223,11 @@ class Folder:
                 raise NotConst(f"{n.id} is not a constant")
             expr = mod.consts[home_name]
         except NotConst:
-            if n.id in ("int", "float", "str", "len", "bool", "abs") :
+            if n.id in ("int", "float", "str", "len", "bool", "abs", "list", "dict", "set", "tuple", "frozenset"):
                 return _BUILTINS[n.id]
             raise
         except Exception:
-            if n.id in ("int", "float", "str", "len", "bool", "abs"):
+            if n.id in ("int", "float", "str", "len", "bool", "abs", "list", "dict", "set", "tuple", "frozenset"):
                 return _BUILTINS[n.id]
             raise NotConst(f"unknown name {n.id}")
         self._busy.add(key)
